@@ -31,11 +31,13 @@ Imps   == {"none", "src", "dst", "both"}
 Imports == [ext |-> [path |-> "ext",    alias |-> "",   declared |-> "ext"],
             v2  |-> [path |-> "api/v2", alias |-> "",   declared |-> "v2"],     \* k8s layout: the version element is the name
             mdl |-> [path |-> "mdl/v3", alias |-> "",   declared |-> "mdl"],    \* module layout: the version element is not the name
-            xa  |-> [path |-> "extal",  alias |-> "xa", declared |-> "extal"]]  \* explicit name
+            xa  |-> [path |-> "extal",  alias |-> "xa", declared |-> "extal"],  \* explicit name
+            sp  |-> [path |-> "other/p", alias |-> "sp", declared |-> "p"]]     \* a package that declares the setup package's own name
 Pkgs == DOMAIN Imports
 Qual(k) == IF Imports[k].alias # "" THEN Imports[k].alias ELSE Imports[k].declared
 Cfg == [style: Styles, recv: BOOLEAN, reverse: BOOLEAN, srcPtr: BOOLEAN, dstPtr: BOOLEAN,
-        retErr: BOOLEAN, nargs: 0..MaxArgs, named: BOOLEAN, namedRes: BOOLEAN, imp: Imps, pkg: Pkgs]
+        retErr: BOOLEAN, nargs: 0..MaxArgs, named: BOOLEAN, namedRes: BOOLEAN, imp: Imps, pkg: Pkgs,
+        recvBlank: BOOLEAN]      \* the receiver name of the notation is the blank identifier: it cannot be referred to
 
 VARIABLES cfg, pc, shape
 vars == <<cfg, pc, shape>>
@@ -52,7 +54,8 @@ ArgDeclNames == <<"count", "code", "ref">>
 ArgDefNames  == <<"arg0", "arg1", "arg2">>
 
 \* ---- names
-SrcName(c) == IF c.recv THEN "rc"
+\* the receiver name of the notation: an ordinary Go identifier, underscore included
+SrcName(c) == IF c.recv THEN "r_c"
               ELSE IF c.named THEN "from"
               ELSE IF c.reverse THEN "dst" ELSE "src"
 \* parameters and results are named independently of each other (Go names all of a list or none)
@@ -66,7 +69,8 @@ NoRecv == P("", "")
 
 \* the import form matters only when an operand is imported; forms other than the
 \* plain one are explored with the parameter names left to the tool
-Init == cfg \in {c \in Cfg : (c.imp = "none" => c.pkg = "ext") /\ (c.pkg # "ext" => ~c.named /\ ~c.namedRes)} /\ pc = "validate" /\ shape = [reject |-> FALSE, recv |-> NoRecv, params |-> << >>, results |-> << >>]
+Init == cfg \in {c \in Cfg : (c.imp = "none" => c.pkg = "ext") /\ (c.pkg # "ext" => ~c.named /\ ~c.namedRes)
+                       /\ (c.recvBlank => c.recv /\ ~c.reverse /\ c.nargs = 0 /\ ~c.named /\ ~c.namedRes /\ c.imp = "none")} /\ pc = "validate" /\ shape = [reject |-> FALSE, recv |-> NoRecv, params |-> << >>, results |-> << >>]
 
 Reject == shape' = [reject |-> TRUE, recv |-> NoRecv, params |-> << >>, results |-> << >>] /\ pc' = "done"
 
@@ -76,6 +80,7 @@ Validate ==
   /\ IF cfg.reverse /\ cfg.style = "return" THEN Reject            \* :reverse needs :style arg
      ELSE IF cfg.reverse /\ cfg.nargs > 0 THEN Reject              \* :reverse cannot be used with additional arguments
      ELSE IF cfg.recv /\ cfg.imp \in {"src", "both"} THEN Reject   \* an imported type cannot be a receiver
+     ELSE IF cfg.recvBlank THEN Reject                             \* a receiver called _ could not be copied from
      ELSE pc' = "assemble" /\ UNCHANGED shape
   /\ UNCHANGED cfg
 
@@ -127,7 +132,8 @@ ResultNamePreserved == Acc /\ cfg.namedRes =>
                        \/ (i \in DOMAIN shape.results /\ shape.results[i].name = "to")
 \* the illegal combinations, and only they, are rejected
 IllegalRejected == Done => (shape.reject <=> \/ (cfg.reverse /\ (cfg.style = "return" \/ cfg.nargs > 0))
-                                             \/ (cfg.recv /\ cfg.imp \in {"src", "both"}))
+                                             \/ (cfg.recv /\ cfg.imp \in {"src", "both"})
+                                             \/ cfg.recvBlank)
 \* all names in a header are distinct
 DistinctNames == Acc => LET all == (IF cfg.recv THEN <<shape.recv.name>> ELSE << >>) \o Names(shape.params) \o Names(shape.results) IN
                           Cardinality({all[i] : i \in DOMAIN all}) = Len(all)
